@@ -213,6 +213,14 @@ def apply_fault(v, d, hist, f, singletons):
     acts = [a for a in hist if a["a"] != "finish"]
     enclosing, own = chains(hist, singletons)
     i, kind = f["item"], f["kind"]
+    if kind == "objlist-item-not-object":
+        chain = own[i]
+        parent = nav(d, chain[:-1])
+        key, idx = chain[-1]
+        lst = list(parent[key])
+        lst[idx] = "oops"
+        parent[key] = lst
+        return parent
     if kind in ("unknown-keyword", "missing-required"):
         blk = nav(d, own[i])
         if kind == "unknown-keyword":
@@ -255,6 +263,8 @@ def apply_fault(v, d, hist, f, singletons):
         lst = list(blk[key])
         lst[0] = "not-a-number"
         blk[key] = lst
+    elif kind == "int-as-float":
+        blk[key] = float(blk[key])
     elif kind == "wrong-type":
         blk[key] = 12345 if a["val"]["sh"] == "str" else "maybe"
     else:
